@@ -93,13 +93,13 @@ var specs = []spec{
 		AtomicRanges: []string{"clientStreamProcessorMPEGTS.joinTrackProcessors"},
 		Rule:        "delay-bounded schedule enumeration (every non-default decision costs one; bound 1 quick / 2 thorough, one more with two closers) of the real Client against the scripted transport: streams {fMP4 one playlist, fMP4 video + audio rendition, MPEG-TS, Low-Latency with preload hints} x fault {none, 404, 500, transport error, body that stalls until cancelled, OnTracks error} at every request index x {no Close, Close by a concurrent thread whose single step is thereby placed at every decision point, two Close calls}; distinct = distinct (stream, fault, end, closed-before-end, callback count/4)",
 		Assumptions: schedAssumptions},
-	{ID: "C13", Pkg: ".", Level: "fault_enumeration", Instrument: true, Procs: 2,
+	{ID: "C13", Pkg: ".", Level: "fault_enumeration", Instrument: true, Procs: 1,
 		Rule:        "finite mutation catalogue applied to every resource of three base scenarios (fMP4 video+audio in one playlist, fMP4 video + audio rendition through a multivariant playlist, MPEG-TS video+audio): empty body, the body of every other resource, init segments with every codec mediacommon can put into fMP4 (12) alone and next to H264 / AAC, permuted / duplicated / gapped track ids, zero time scales, 12 tracks, fragments without leading-track data, with unknown or swapped track ids, huge base times and durations, 30 fragments, MPEG-TS payloads with other codecs or without leading-track data, garbage; truncation at every box boundary and after every box header, removal and duplication of every box, box sizes 0 and 2^32-1, every 32-bit word of tfhd/tfdt/trun/mfhd/mdhd/mvhd/tkhd/trex set to {0,1,2^31,2^32-1}, tfdt base time in {0,1,2^31,2^32-1,2^63,2^64-1}; truncation at every TS packet boundary and inside every packet, corrupted sync / header bytes of every packet; playlists: every line deletion and duplication, truncation at every (3rd) byte, every stored fuzz-corpus text and a few adversarial playlists; each case is one run of the real Client; distinct = distinct (scenario, resource, mutation kind, end, delivered units)",
 		Assumptions: append([]string{"client goroutines are scheduled by the Go runtime inside a testing/synctest bubble (virtual clock); a 60 s real-time watchdog attributes hangs / busy loops"}, commonAssumptions...)},
-	{ID: "C10", Pkg: ".", Level: "exploration", Instrument: true, Procs: 2,
+	{ID: "C10", Pkg: ".", Level: "exploration", Instrument: true, Procs: 1,
 		Rule:        "full product (quick: minus combinations that only multiply independent options) of container {MPEG-TS, fMP4} x base time {0, 1 tick, 6 s, 2^32-0.5 s, 2^33-1.5 s with the wrap inside the stream (TS) / 2^40 (fMP4)} x tracks {video, audio, video+audio in one playlist in both orders, video + 1..3 audio renditions with timescales 48000/44100/32000} x presentation offsets {none, B-frame pattern} x fragments per segment {1, 3} (+ 10, 11, 12, 16) x addressing {files, byte ranges of one resource incl. the init with explicit offsets, the same with every offset after the first omitted} x PROGRAM-DATE-TIME {absent, present} x {VOD, live start} x audio {aligned, 100 ms ahead and multiplexed first, 100 ms behind}; each stream is synthesised with mediacommon's writers, served by the scripted transport and read by the real Client in a synctest bubble; reference model: the list of units with container times; distinct = distinct (case, delivered unit count)",
 		Assumptions: append([]string{"streams are synthesised with mediacommon's MPEG-TS / fMP4 writers", "client goroutines are scheduled by the Go runtime inside a testing/synctest bubble (virtual clock)"}, commonAssumptions...)},
-	{ID: "C11", Pkg: ".", Level: "model_checking", Instrument: true, Procs: 2,
+	{ID: "C11", Pkg: ".", Level: "model_checking", Instrument: true, Procs: 1,
 		Rule:        "explicit enumeration of playlist histories: the server answers the n-th playlist poll after the events {advance the media sequence by 0,1,2,3,6; append ENDLIST} chosen for every poll, all histories to depth 4 (5), x window size {1,2,3,4,6,10} x type {none, EVENT, VOD} x URI style {relative, absolute, with query, byte range with start, byte range without start} and, with a multivariant entry point, two renditions evolving independently (all depth-3 x depth-2 history pairs); each history is one run of the real Client against a scripted in-process transport inside a synctest bubble; reference model: an integer (next media sequence number) predicting the exact request sequence, Range headers and the final error; states = histories, transitions = events; distinct = distinct (scenario, end, request counts)",
 		Assumptions: append([]string{"client goroutines are scheduled by the Go runtime inside a testing/synctest bubble (virtual clock); the schedule is not enumerated for this property, the playlist history is"}, commonAssumptions...)},
 	{ID: "C14", Pkg: "pkg/playlist", Level: "exploration", Procs: 2,
